@@ -19,7 +19,7 @@ def nul_pad(b: bytes, mult=4, extra=0) -> bytes:
 
 def gen_user_section(rng, u, creator, ext=False, flavor=None, fixtures=True, plugins_enabled=True):
     """A UD (or ED when ext) section and its display obligations."""
-    flavors = ["bmc_json", "bmc_text", "bmc_other", "noparser", "noparser"]
+    flavors = ["bmc_json", "bmc_text", "bmc_other", "noparser", "noparser", "bmc_badjson"]
     if fixtures:
         flavors += ["fx_ok", "fx_ok", "fx_raise", "fx_none", "fx_importerror", "fx_list", "fx_hostile", "fx_keyerror",
                     "fx_badimport", "fx_brokenimport", "fx_release_raise", "fx_release_none", "fx_release_ok",
@@ -50,6 +50,14 @@ def gen_user_section(rng, u, creator, ext=False, flavor=None, fixtures=True, plu
         payload = nul_pad(txt.encode("utf-8"), 4, rng.choice([0, 0, 4]))
         mode = "json"
         expect = [("*", "contains", doc)] if isinstance(doc, dict) else [("Data", "eq", doc)]
+    elif flavor == "bmc_badjson":
+        # marked as the built-in JSON format but not JSON (valid UTF-8 text): nothing decodes it - the text is hex-dumped
+        eff, comp, sub = "O", 0x2000, 1
+        txt = rng.choice(["not json {", '{"a": }', "[1, 2", '{"a": 1} trailing', "{'single': 'quotes'}", "NaN,", '"unterminated',
+                          "<xml/>", "key=value", '{"a": 1,}', "\u00e9t\u00e9 {", "{" * 50]) + u.token(6)
+        payload = nul_pad(txt.encode("utf-8"), 4, rng.choice([0, 0, 4]))
+        mode = "none"
+        expect = [("Data", "dumpws", payload)]
     elif flavor == "bmc_text":
         eff, comp, sub = "O", 0x2000, 3
         lines = pm.text_payload(rng, u)
